@@ -213,10 +213,18 @@ class Teardown:
     def on_store(self, eng, ev, st):
         if any(fl[0] == "slot_dropped" and fl[1] == ev.place for fl in st.flags):
             return rem(st, lambda fl: fl[0] == "slot_dropped" and fl[1] == ev.place)
+        if ev.get("how") == "replace":
+            return add(st, ("slot_refilled", ev.place))     # the old handle was taken out as a new one went in
         return None
 
     def on_handle_drop(self, eng, ev, st):
         v = ev.get("value")
+        if v is not None and ("slot_refilled", v) in st.flags:
+            # the handle taken out of the caller's slot by `mem::replace`: the slot already holds its successor
+            eng.obl("UNW-1", "caller-handle-dropped-in-place", ev.b)
+            st = rem(st, lambda fl: fl == ("slot_refilled", v))
+            r = self._on_handle_drop(eng, ev, st)
+            return r if r is not None else st
         if v is not None and v[0] == "deref" and v[1][0] == "param" and self.entry_kind not in ("rc_drop", "weak_drop"):
             eng.obl("UNW-1", "caller-handle-dropped-in-place", ev.b)
             st = add(st, ("slot_dropped", v, ev.b))
